@@ -398,10 +398,9 @@ func (s *socket) MaybeUpgrade(transport transports.Transport) {
 	onError = func(err ...any) {
 		socket_log.Debug("client did not complete upgrade - %v", err[0])
 		cleanup()
-		if transport != nil {
-			transport.Close()
-			transport = nil
-		}
+		// the variable is shared with the candidate's reader goroutine, which
+		// may be inside onPacket right now: it is never reset
+		transport.Close()
 	}
 
 	onTransportClose = func(...any) {
